@@ -7,7 +7,7 @@ From Coq Require Import Lia ZArith List Permutation.
 From Sebuf Require Import CodecCases.
 From SebufProofs Require Import TextFacts CodecTextFacts ProtoJsonFacts.
 From SebufProofs Require NullableFacts Int64Facts BytesFacts TimestampFacts EmptyFacts.
-From SebufProofs Require Import OneofPj.
+From SebufProofs Require Import OneofPj ClashFacts.
 Import ListNotations.
 
 Open Scope Z_scope.
@@ -93,6 +93,7 @@ Definition map_un (n : nat) (kk ek : kind) (jv : json) : res (option fval) :=
   match jv with
   | JNull => ROk None
   | JObj kv =>
+      if kind_eqb kk KBool then RErr (s "json: cannot unmarshal object into Go value of type map[bool]") else
       rall (map (fun e => key_of_text kk (fst e) >>= (fun key => gj_un E sc n ek (snd e) >>= (fun o =>
               match o with Some v => ROk (key, v) | None => RUnm (s "null map value") end))) kv)
       >>= (fun es => ROk (Some (FMap (sort_entries es))))
@@ -110,11 +111,32 @@ Definition un_field (n : nat) (md : message) (e : str * json) : res (option (fie
   | Some f => un_value n f (snd e) >>= (fun o => ROk (option_map (fun v => (f, v)) o))
   end.
 
+(* the struct fields the keys of an object address (exact name, else case-folded) *)
+Definition key_fields (md : message) (kv : list (str * json)) : list field :=
+  flat_map (fun e => opt_list (field_by_fold md (fst e))) kv.
+
 Lemma gj_un_reflect n tn md kv :
   is_wkt_other tn = false -> lookup_message sc tn = Some md -> owner_of sc md = OwnNone -> has_real_oneof md = false ->
   gj_un E sc (S n) (KMessage tn) (JObj kv) =
-  rall (map (un_field n md) kv) >>= (fun ofs => ROk (Some (FM (assemble (flat_map opt_list ofs))))).
+  if clash_unm (key_fields md kv)
+  then RUnm (s "two keys of one object address the same slice, map, pointer or struct field") else
+  rall (map (un_field n md) kv) >>= (fun ofs => ROk (Some (FM (assemble (last_wins (flat_map opt_list ofs)))))).
 Proof. intros H1 H2 H3 H4. simpl. rewrite H1, H2, H3, H4. reflexivity. Qed.
+
+(* keys that address pairwise distinct fields *)
+Lemma key_fields_sub {A} (g : A -> list field) (h : A -> str) (l : list A) :
+  (forall a, In a l -> g a = [] \/ exists f, g a = [f] /\ f_name f = h a) ->
+  NoDup (map h l) -> NoDup (map f_name (flat_map g l)).
+Proof.
+  induction l as [|a r IH]; intros Hg Hnd; [constructor|]. cbn [map] in Hnd. inversion Hnd as [|x l0 Hnot Hr]; subst.
+  cbn [flat_map]. assert (IHr : NoDup (map f_name (flat_map g r))).
+  { apply IH; [intros b Hb; apply Hg; right; exact Hb|exact Hr]. }
+  destruct (Hg a (or_introl eq_refl)) as [Hnil|[f [Hf Hn]]]; rewrite ?Hnil, ?Hf; [exact IHr|].
+  cbn [app map]. constructor; [|exact IHr].
+  intros Hin. apply in_map_iff in Hin. destruct Hin as [f' [Hn' Hin]]. apply in_flat_map in Hin. destruct Hin as [b [Hb Hfb]].
+  destruct (Hg b (or_intror Hb)) as [Hnil|[f2 [Hf2 Hn2]]]; [rewrite Hnil in Hfb; destruct Hfb|].
+  rewrite Hf2 in Hfb. destruct Hfb as [Hfb|[]]. subst f2. apply Hnot. rewrite <- Hn, <- Hn', Hn2. apply in_map. exact Hb.
+Qed.
 
 Lemma gj_un_scalar n k j : is_msgk k = false -> gj_un E sc (S n) k j = gj_unscalar E sc k j >>= (fun o => ROk (option_map FS o)).
 Proof. intros H. destruct k; try discriminate H; reflexivity. Qed.
@@ -347,7 +369,8 @@ Proof.
     rewrite gj_fval_FMap in Hj. apply rbind_ok in Hj. destruct Hj as [es [Hes Hj]]. inversion Hj; subst j.
     destruct (gj_map_good kk (f_kind f) n (e0 :: kv) Hk Hb Hw Hnf es Hes) as [H1 H2].
     repeat split; [| |discriminate].
-    + unfold un_value. rewrite Hc. unfold map_un. rewrite H1. cbn [rbind]. rewrite (sorted_key_sort _ Hs). reflexivity.
+    + unfold un_value. rewrite Hc. unfold map_un. rewrite (proj1 (Bool.negb_true_iff _) Hb), H1. cbn [rbind].
+      rewrite (sorted_key_sort _ Hs). reflexivity.
     + unfold u_value. rewrite Hc, H2. cbn [rbind]. rewrite (sorted_key_no_dup _ Hs), (sorted_key_sort _ Hs). reflexivity.
 Qed.
 
@@ -434,10 +457,11 @@ Proof.
 Qed.
 
 Lemma pj_value_un f x j n :
-  pj_kind_ok (f_kind f) = true -> nonfinite_in (f_kind f) x = false -> wt_entry sc f x = true ->
+  pj_kind_ok (f_kind f) = true -> nonfinite_in (f_kind f) x = false ->
+  negb (match f_card f with MapOf KBool => true | _ => false end) = true -> wt_entry sc f x = true ->
   pj_fval E sc (f_kind f) x = ROk j -> un_value (S n) f j = ROk (Some x).
 Proof.
-  intros Hk Hnf Hw Hj. pose proof (pj_kind_gj _ Hk) as Hg.
+  intros Hk Hnf Hbm Hw Hj. pose proof (pj_kind_gj _ Hk) as Hg.
   assert (Hm : is_msgk (f_kind f) = false) by (destruct (f_kind f); try discriminate Hk; reflexivity).
   unfold wt_entry in Hw. destruct x as [v|cm|l|kv].
   - assert (Hc : (wt sc (f_kind f) (FS v) && populated f (FS v)) = true /\
@@ -459,7 +483,9 @@ Proof.
     destruct (f_card f) as [| | |kk] eqn:Hc; try discriminate Hw.
     apply andb_prop in Hw. destruct Hw as [Hs Hw]. rewrite nonfinite_FMap in Hnf.
     rewrite pj_fval_FMap in Hj. apply rbind_ok in Hj. destruct Hj as [es [Hes Hj]]. inversion Hj; subst j.
-    unfold un_value. rewrite Hc. unfold map_un. rewrite (pj_map_un kk (f_kind f) n (e0 :: kv) Hk Hw Hnf es Hes).
+    pose proof (not_boolmap_kk kk Hbm) as Hb.
+    unfold un_value. rewrite Hc. unfold map_un.
+    rewrite (proj1 (Bool.negb_true_iff _) Hb), (pj_map_un kk (f_kind f) n (e0 :: kv) Hk Hw Hnf es Hes).
     cbn [rbind]. rewrite (sorted_key_sort _ Hs). reflexivity.
 Qed.
 
@@ -624,15 +650,28 @@ Proof.
   intros HF HP.
   rewrite (gj_un_reflect (S n) ctn cmd vmap Hwk child_lookup Hown (msg_ok_no_real_oneof cmd Hok)).
   pose proof (BytesFacts.msg_ok_nodup_jn cmd Hok) as Hnd.
+  pose proof (BytesFacts.wt_fields_declared sc cmd cm Hwf) as Hd0.
+  (* the keys address the fields of fvs, which are pairwise distinct *)
+  assert (Hnames : NoDup (map (fun e : field * fval => f_name (fst e)) fvs)).
+  { eapply Permutation_NoDup; [apply Permutation_map; apply Permutation_sym; exact HP|].
+    assert (Heq : map (fun e : field * fval => f_name (fst e)) (tags cmd cm) = map fst cm).
+    { rewrite <- (tags_names cmd cm Hd0) at 2. rewrite map_map. reflexivity. }
+    rewrite Heq. exact (Int64Facts.sorted_names_nodup cmd cm Hsorted). }
+  assert (Hkf : key_fields cmd vmap = map fst fvs).
+  { clear HP Hnames. induction HF as [|[f x] [k j] r r' Hhd _ IH]; [reflexivity|].
+    destruct Hhd as [Hin [Hk _]]. cbn [fst snd] in *. subst k.
+    unfold key_fields in *. cbn [flat_map map fst]. unfold field_by_fold at 1. rewrite (find_self (m_fields cmd) f Hnd Hin).
+    cbn [opt_list app]. rewrite IH. reflexivity. }
+  rewrite Hkf, (clash_unm_nodup (map fst fvs)) by (rewrite map_map; exact Hnames).
   assert (Hr : rall (map (un_field (S n) cmd) vmap) = ROk (map Some fvs)).
-  { apply rall_F2. clear HP. induction HF as [|[f x] [k j] r r' Hhd _ IH]; [constructor|]. cbn [map]. constructor; [|exact IH].
+  { apply rall_F2. clear HP Hnames Hkf. induction HF as [|[f x] [k j] r r' Hhd _ IH]; [constructor|]. cbn [map]. constructor; [|exact IH].
     destruct Hhd as [Hin [Hk [Hj [Hg Hw]]]]. cbn [fst snd] in *. subst k.
     unfold un_field. cbn [fst snd]. unfold field_by_fold. rewrite (find_self (m_fields cmd) f Hnd Hin).
     destruct (gj_value_good f x j n Hg Hw Hj) as [Hu _]. rewrite Hu. reflexivity. }
   rewrite Hr. cbn [rbind]. do 3 f_equal.
   assert (Hfl : flat_map opt_list (map Some fvs) = fvs).
   { clear. induction fvs as [|a r IH]; [reflexivity|]. cbn [map flat_map opt_list app]. rewrite IH. reflexivity. }
-  rewrite Hfl.
+  rewrite Hfl, (last_wins_nodup fvs Hnames).
   pose proof (BytesFacts.wt_fields_declared sc cmd cm Hwf) as Hd.
   rewrite (assemble_perm fvs (tags cmd cm)).
   - apply tags_names. exact Hd.
@@ -642,12 +681,14 @@ Proof.
 Qed.
 
 (* non-flattened: the protojson form of the variant is handed to encoding/json; single-word fields must be of a kind
-   whose protojson form encoding/json reads, multi-word keys (lowerCamel) must not fold onto another field *)
+   whose protojson form encoding/json reads and not a bool-keyed map (map[bool]T is no target for json.Unmarshal),
+   multi-word keys (lowerCamel) must not fold onto another field *)
 Definition nonflat_child_ok : bool :=
   forallb (fun e => match find_field (m_fields cmd) (fst e) with
                     | Some f => if multiword (fst e)
                                 then match field_by_fold cmd (json_name (fst e)) with None => true | Some _ => false end
-                                else pj_kind_ok (f_kind f) && negb (nonfinite_in (f_kind f) (snd e))
+                                else pj_kind_ok (f_kind f) && negb (nonfinite_in (f_kind f) (snd e)) &&
+                                     negb (match f_card f with MapOf KBool => true | _ => false end)
                     | None => false
                     end) cm.
 
@@ -657,6 +698,23 @@ Proof.
   intros Hc Hces.
   rewrite (gj_un_reflect (S n) ctn cmd ces Hwk child_lookup Hown (msg_ok_no_real_oneof cmd Hok)).
   pose proof (BytesFacts.msg_ok_nodup_jn cmd Hok) as Hnd.
+  (* single-word keys address their own fields, multi-word keys address none: no field is addressed twice *)
+  assert (Hcl : clash_unm (key_fields cmd ces) = false).
+  { apply clash_unm_nodup. unfold key_fields.
+    assert (Heq : flat_map (fun e : str * json => opt_list (field_by_fold cmd (fst e))) ces =
+                  flat_map (fun e : str * fval => opt_list (field_by_fold cmd (json_name (fst e)))) cm).
+    { rewrite (flat_map_via_map fst (fun k => opt_list (field_by_fold cmd k)) ces).
+      rewrite (flat_map_via_map (fun e : str * fval => json_name (fst e)) (fun k => opt_list (field_by_fold cmd k)) cm).
+      rewrite (NullableFacts.m_msg_keys E sc cmd cm ces Hces). reflexivity. }
+    rewrite Heq. apply (key_fields_sub _ fst cm); [|exact (Int64Facts.sorted_names_nodup cmd cm Hsorted)].
+    intros [name x] Hinm. cbn [fst].
+    unfold nonflat_child_ok in Hc. rewrite forallb_forall in Hc. specialize (Hc _ Hinm). cbn [fst snd] in Hc.
+    destruct (find_field (m_fields cmd) name) as [f|] eqn:Hf; [|discriminate Hc].
+    destruct (multiword name) eqn:Emw.
+    - left. destruct (field_by_fold cmd (json_name name)); [discriminate Hc|reflexivity].
+    - right. exists f. rewrite (single_word_json name Emw). unfold field_by_fold. rewrite Hf. split; [reflexivity|].
+      exact (proj2 (find_field_spec _ _ _ Hf)). }
+  rewrite Hcl.
   destruct (rall_ok_ex (map (un_field (S n) cmd) ces)) as [ofs Hofs].
   - intros r Hr. apply in_map_iff in Hr. destruct Hr as [[k j] [Hr Hin]]. subst r.
     destruct (BytesFacts.m_msg_entry E sc cmd cm ces k j Hces Hin) as [name [x [f [Hinm [Hk [Hf Hj]]]]]].
@@ -664,11 +722,12 @@ Proof.
     unfold un_field. cbn [fst snd]. subst k.
     destruct (multiword name) eqn:Emw.
     + destruct (field_by_fold cmd (json_name name)); [discriminate Hc|]. eexists. reflexivity.
-    + apply andb_prop in Hc. destruct Hc as [Hk Hnf]. apply Bool.negb_true_iff in Hnf.
+    + apply andb_prop in Hc. destruct Hc as [Hc Hbm]. apply andb_prop in Hc. destruct Hc as [Hk Hnf].
+      apply Bool.negb_true_iff in Hnf.
       rewrite (single_word_json name Emw). destruct (find_field_spec _ _ _ Hf) as [Hinf Hn].
       unfold field_by_fold. rewrite Hf.
       destruct (BytesFacts.wt_fields_in sc cmd cm name x Hwf Hinm) as [g [Hg Hw]]. assert (g = f) by congruence. subst g.
-      rewrite (pj_value_un f x j n Hk Hnf Hw Hj). eexists. reflexivity.
+      rewrite (pj_value_un f x j n Hk Hnf Hbm Hw Hj). eexists. reflexivity.
   - rewrite Hofs. eexists. reflexivity.
 Qed.
 End Child.
